@@ -88,7 +88,8 @@ fn model_int(t: &[usize], zs: &[f32]) -> Model {
         m.walls.push(wall("B_F", BoundaryType::GROUND, slab, uid("B"), None, geom(180.0, 0.0, None, rect(5.0, 3.0))));
         m.walls.push(wall("B_S", BoundaryType::EXTERIOR, uid("ext"), uid("B"), None, geom(90.0, 0.0, None, rect(5.0, 2.7))));
         m.walls.push(wall("B_W", BoundaryType::GROUND, uid("ext"), uid("B"), None, geom(90.0, 90.0, None, rect(3.0, 2.7))));
-        m.windows.push(window("B_S_v", uid("winc"), uid("B_S"), None, 1.2, 1.0, 0.0));
+        // (a large glazed part: the opaque share of the neighbour's facade is what is left of it)
+        m.windows.push(window("B_S_v", uid("winc"), uid("B_S"), None, 3.0, 2.0, 0.0));
         m.windows.push(window("B_S_v2", uid("missing-wincons"), uid("B_S"), None, 0.5, 0.5, 0.0));
     }
     let (own, nxt) = if t[8] == 0 { (uid("A"), uid("B")) } else { (uid("B"), uid("A")) };
